@@ -10,7 +10,7 @@
    Model only, no proofs (proofs: Dlt/WritePipelineProofs.v). *)
 From Coq Require Import List NArith Bool.
 From AdltV Require Import Base.Res Base.MachInt Dlt.Frame Dlt.Iter Dlt.Write Reader.LowMark Dlt.Chunk.
-From AdltV Require Lifecycle.Model.
+From AdltV Require Lifecycle.Model Dlt.Args FileTransfer.Ft.
 Import ListNotations.
 Open Scope N_scope.
 
@@ -104,3 +104,137 @@ Fixpoint convert_o_chain (prior : fs_path) (datas : list bytes) : list (res fs_p
       let p := convert_o_path prior d in
       p :: convert_o_chain (match p with Ok s => s | _ => prior end) r
   end.
+
+(* ------------------------------------------------------------------ the plugin stage (wave 7)
+   With one of the options --file_transfer[=glob] (+ --file_transfer_path/_apid/_ctid), --nonverbose_path, --someip_path,
+   --rewrite_path, --can_path, --muniic_path (and --anon: property C19, it rewrites ids on purpose) `plugins_active` of
+   convert() is not empty and a plugin thread runs between lc_thread and the sort / filter / output threads:
+       plugins_process_msgs(rx_from_lc_thread, outflow, plugins_active)              (src/plugins/mod.rs)
+       for mut msg in inflow {
+           let mut forward_msg = true;
+           for plugin in &mut plugins_active { if !plugin.process_msg(&mut msg) { forward_msg = false; break; } }
+           if forward_msg { outflow(msg)?; }
+       }
+   (the same loop as C19's Plugins/Chain.v, here on the messages of Dlt/Frame.v, i.e. on exactly the fields to_write reads;
+   payload_text and the lifecycle id, which the decoders may set, are not part of a DLT frame).  None of these options
+   selects messages: selection is -f / --eac / --lcs / -b / -e (property C14).
+   A plugin: private state + process_msg (new state, the possibly modified message, forward?). *)
+Record plugin := {
+  p_st : Type;
+  p_state : p_st;
+  p_step : p_st -> msg -> p_st * msg * bool
+}.
+
+Definition p_apply (p : plugin) (m : msg) : plugin * msg * bool :=
+  match p_step p (p_state p) m with
+  | (s', m', b) => ({| p_st := p_st p; p_state := s'; p_step := p_step p |}, m', b)
+  end.
+
+(* the inner loop: the first `false` ends the pass, later plugins do not see the message *)
+Fixpoint plugins_pass (ps : list plugin) (m : msg) : list plugin * msg * bool :=
+  match ps with
+  | [] => ([], m, true)
+  | p :: r =>
+      match p_apply p m with
+      | (p', m', true) => match plugins_pass r m' with (r', m'', b) => (p' :: r', m'', b) end
+      | (p', m', false) => (p' :: r, m', false)
+      end
+  end.
+
+(* the outer loop (FIFO channel to the next thread: outflow never fails) *)
+Fixpoint plugins_process (ps : list plugin) (ms : list msg) : list msg :=
+  match ms with
+  | [] => []
+  | m :: rest =>
+      match plugins_pass ps m with
+      | (ps', m', fwd) => (if fwd then [m'] else []) ++ plugins_process ps' rest
+      end
+  end.
+
+(* `adlt convert <plugin options> -o`: reader -> lifecycle stage -> [stage] -> writer *)
+Definition convert_o_with (stage : list msg -> list msg) (data : bytes) : res wres :=
+  match run_iter 0 data with
+  | Ok (ms, _, _) => write_all (stage (lifecycle_stage ms))
+  | Panic s => Panic s
+  | OutOfFuel => OutOfFuel
+  end.
+Definition convert_o_plugins (ps : list plugin) (data : bytes) : res wres := convert_o_with (plugins_process ps) data.
+
+(* What a plugin other than the anonymiser may do to the part of a message that to_write reads (the contract C19 states
+   as `frame` in Plugins/Chain.v): fill in a MISSING extended header (NonVerbosePlugin, from the FIBEX frame description;
+   the writer then writes it: header completion, /repo commit f6163bb made the 16 bit len overflow of that an Err); set
+   the timestamp only if [allow_ts] (RewritePlugin with a `timeStamp` capture group).  Everything else is kept. *)
+Definition completes (allow_ts : bool) (m m' : msg) : Prop :=
+  m_index m' = m_index m /\ m_reception_us m' = m_reception_us m /\ m_ecu m' = m_ecu m /\ m_std m' = m_std m /\
+  m_payload m' = m_payload m /\
+  (match m_ext m with Some e => m_ext m' = Some e | None => True end) /\
+  (allow_ts = true \/ m_timestamp m' = m_timestamp m).
+
+(* a plugin that never drops and stays inside that contract on the states it can reach ... *)
+Definition Conservative (allow_ts : bool) (p : plugin) : Prop :=
+  exists I : p_st p -> Prop,
+    I (p_state p) /\
+    forall s m, I s -> match p_step p s m with (s', m', b) => I s' /\ completes allow_ts m m' /\ b = true end.
+(* ... and one that hands every message on untouched *)
+Definition Exact (p : plugin) : Prop :=
+  exists I : p_st p -> Prop,
+    I (p_state p) /\ forall s m, I s -> match p_step p s m with (s', m', b) => I s' /\ m' = m /\ b = true end.
+
+(* undo the completion: the message [m'] with the extended header and timestamp of [m] *)
+Definition uncomplete (m m' : msg) : msg :=
+  {| m_index := m_index m'; m_reception_us := m_reception_us m'; m_ecu := m_ecu m'; m_timestamp := m_timestamp m;
+     m_std := m_std m'; m_ext := m_ext m; m_payload := m_payload m' |}.
+Fixpoint uncomplete_all (ms ms' : list msg) : list msg :=
+  match ms, ms' with
+  | m :: r, m' :: r' => uncomplete m m' :: uncomplete_all r r'
+  | _, _ => []
+  end.
+
+(* ---- FileTransferPlugin as configured by convert():
+     json!({"name":"file_transfer","allowSave":false, "keepFLDA":true, "autoSavePath": <--file_transfer_path or "./">,
+            "autoSaveGlob": <--file_transfer>}) + "apid" / "ctid" from --file_transfer_apid / --file_transfer_ctid;
+   FileTransferPlugin::from_json reads the keys "enabled" (default true), "allowSave", "keepFLDA" (DEFAULT FALSE: FLDA messages
+   are swallowed unless the configuration says keepFLDA = true), "apid", "ctid", "autoSavePath", "autoSaveGlob".
+   The plugin itself is C17's model (FileTransfer/Ft.v) on the arguments decoded by C18's model (Dlt/Args.v);
+   process_msg never modifies the message, and whether it forwards it depends on the message only (not on the transfers
+   seen so far): false exactly for a message classified as FLDA when keepFLDA is off. *)
+Module DA := AdltV.Dlt.Args.
+Module FT := AdltV.FileTransfer.Ft.
+
+Definition ft_arg (a : DA.arg) : FT.arg := FT.mkArg (DA.a_ti a) (DA.a_be a) (DA.a_raw a).
+(* what process_msg reads: ecu, apid / ctid / verb_mstp_mtin / noar, the arguments (`msg.into_iter()`); the lifecycle id
+   only enters the transfer key *)
+Definition ft_view (m : msg) : FT.msg :=
+  FT.mkMsg (ecu_key (m_ecu m)) 0
+    (match m_ext m with
+     | Some e => Some (FT.mkExt (ecu_key (apid e)) (ecu_key (ctid e)) (verb_mstp_mtin e) (noar e))
+     | None => None
+     end)
+    (match m_ext m with
+     | Some e =>
+         match DA.msg_args (N.testbit (verb_mstp_mtin e) 0) (is_big_endian (m_std m)) (m_payload m) with
+         | Ok l => map ft_arg l
+         | _ => []
+         end
+     | None => []     (* only read for verbose messages *)
+     end).
+
+(* return value of FileTransferPlugin::process_msg *)
+Definition ft_forwards (c : FT.cfg) (m : msg) : bool :=
+  match FT.classify c (ft_view m) with FT.KFlda => FT.c_keep_flda c | _ => true end.
+Definition ft_plugin (c : FT.cfg) : plugin :=
+  {| p_st := unit; p_state := tt; p_step := fun _ m => (tt, m, ft_forwards c m) |}.
+
+(* the value convert() puts under the key "keepFLDA" / what from_json uses when the key is absent *)
+Definition CLI_KEEP_FLDA : bool := true.
+Definition FROM_JSON_DEFAULT_KEEP_FLDA : bool := false.
+(* [apid], [ctid]: --file_transfer_apid / _ctid (DltChar4 as number); [dir]: --file_transfer_path; [glob]: --file_transfer *)
+Definition cli_ft_cfg (apid ctid : option N) (dir : option (list N)) (glob : list N -> bool) : FT.cfg :=
+  FT.mkCfg true false CLI_KEEP_FLDA apid ctid (Some (match dir with Some d => d | None => [46; 47] end)) (Some glob).
+(* the same configuration without a (correctly spelled) "keepFLDA" entry *)
+Definition cli_ft_cfg_no_keep (apid ctid : option N) (dir : option (list N)) (glob : list N -> bool) : FT.cfg :=
+  FT.mkCfg true false FROM_JSON_DEFAULT_KEEP_FLDA apid ctid (Some (match dir with Some d => d | None => [46; 47] end)) (Some glob).
+
+(* `adlt convert --file_transfer=<glob> [--file_transfer_apid a] [--file_transfer_ctid c] [--file_transfer_path d] -o` *)
+Definition convert_o_ft (apid ctid : option N) (dir : option (list N)) (glob : list N -> bool) (data : bytes) : res wres :=
+  convert_o_plugins [ft_plugin (cli_ft_cfg apid ctid dir glob)] data.
